@@ -614,3 +614,15 @@ def inline_local_helpers(unit):
     view.node = new
     view.children = [ch for ch in unit.children if ch.name not in used]
     return view
+
+
+def required_await(run, rid, unit, what_pred, before_pred, what, before, slot):
+    """must-precede: a `yield <expr matching what_pred>` exists in unit and dominates every node matching before_pred"""
+    g = cfg_of(unit)
+    ys = g.nodes_where(lambda n: any(isinstance(a, ast.Yield) and a.value is not None and what_pred(a.value) for a in node_asts(n)))
+    bs = g.nodes_where(lambda n: any(before_pred(a) for a in node_asts(n)))
+    if not bs:
+        raise AnchorVanished('%s: no %s' % (unit.short, before))
+    ok = bool(ys) and all(any(g.dominates(y, b) for y in ys) for b in bs)
+    run.ob(rid, unit, (ys[0].ast if ys else unit.node), '%s is awaited before %s' % (what, before), ok, slot=slot,
+           message='%s does not wait for %s before %s' % (unit.short, what, before))
